@@ -517,6 +517,25 @@ func genLocComplete(repo string) (text string, err error) {
 			fmt.Fprintf(&loops, "def %s (self_ : Gts.Loc → Gts.Loc) : Nat → Int → List Gts.Loc → List Gts.Loc\n  | 0, %s, %s => %s\n  | todo_ + 1, %s, %s =>\n    let %s : Gts.Loc := %s.getD (Int.toNat %s) default;\n    let %s : List Gts.Loc := %s.set (Int.toNat %s) (self_ %s);\n    %s self_ todo_ (%s + 1) %s\n\n",
 				name, idx, v, v, idx, v, elem, v, idx, v, v, iv.expr, elem, name, idx, v)
 			fmt.Fprintf(&arms, "  | .%s %s => .%s (%s self_ %s.length 0 %s)  -- case %s\n", strings.ToLower(k), v, strings.ToLower(k), name, v, v, k)
+		case k == "Complemented":
+			// v.Location = asComplete(v.Location); return v   (v is a copy of the struct value: no
+			// store is visible to the caller except through slices inside, which is C11's subject)
+			if len(body) != 2 || !isReturnOf(body[1], v) {
+				refuse("%s, case %s: expected one assignment and `return %s`", what, k, v)
+			}
+			as, ok := body[0].(*ast.AssignStmt)
+			if !ok || as.Tok != token.ASSIGN || len(as.Lhs) != 1 || len(as.Rhs) != 1 {
+				refuse("%s, case %s: first statement is not one assignment", what, k)
+			}
+			isField := func(e ast.Expr) bool {
+				se, ok := e.(*ast.SelectorExpr)
+				return ok && identName(se.X) == v && se.Sel.Name == "Location"
+			}
+			call, ok := as.Rhs[0].(*ast.CallExpr)
+			if !isField(as.Lhs[0]) || !ok || identName(call.Fun) != "asComplete" || len(call.Args) != 1 || !isField(call.Args[0]) {
+				refuse("%s, case %s: expected `%s.Location = asComplete(%s.Location)`", what, k, v, v)
+			}
+			fmt.Fprintf(&arms, "  | .compl l => .compl (self_ l)  -- case Complemented: `%s.Location = asComplete(%s.Location); return %s`\n", v, v, v)
 		default:
 			refuse("%s: case %s is outside the subset", what, k)
 		}
